@@ -536,6 +536,12 @@ FUNCS = [
                      ("anonymizer.anonymize(A)", "(← anonymize h L B {A})"),
                      ("anonymizer.make_addr_from_int(A)", "{A}"),
                      ("str(new_ip)", "(if fam6 then IpText.showV6 new_ip else IpText.showV4 new_ip)")]),
+    dict(module="netconan/ip_anonymization.py", qual="anonymize_ip_addr", name="anonymize_ip_addr",
+         sig="(h : Bits → Bool) (fam6 : Bool) (nets : List Mask.Net) (L B : Nat) (pat : Regex.Re) (line : List Char) (undo_ip_anon : Bool) : "
+             "Py.M (Regex.Res (List Char))",
+         expr_rules=[("anonymizer.get_addr_pattern()", "pat"),
+                     ("pattern.sub(lambda match: _anonymize_match(anonymizer, match.group(0), undo_ip_anon), line)",
+                      "(← Py.subM pattern (fun match_ => anonymize_match h fam6 nets L B match_.text undo_ip_anon) line)")]),
     dict(module="netconan/sensitive_item_removal.py", qual="_check_sensitive_item_format", name="check_sensitive_item_format",
          sig="(fs : List Regex.Re) (val : List Char) : Secrets.Fmt", run="Id.run ",
          expr_rules=[("re.match(A, B)", _re_match_rule)] +
@@ -628,9 +634,9 @@ FUNCS.append(
                      ("anonymize_as_numbers(A, B)", "(← Lines.liftRes (AsNum.anonymize {A} {B}))")]))
 
 GROUPS = {
-    "SrcIp": dict(imports=["Netconan.Model.Py", "Netconan.Model.Mask", "Netconan.Model.IpText"],
-                  serves=["C01", "C02", "C03", "C04", "C05", "C17"],
-                  funcs=["is_mask", "anonymize_bits", "deanonymize_bits", "anonymize", "deanonymize", "seed_loop", "anonymize_match"]),
+    "SrcIp": dict(imports=["Netconan.Model.Py", "Netconan.Model.Mask", "Netconan.Model.IpText", "Netconan.Model.PyRegex"],
+                  serves=["C01", "C02", "C03", "C04", "C05", "C06", "C17"],
+                  funcs=["is_mask", "anonymize_bits", "deanonymize_bits", "anonymize", "deanonymize", "seed_loop", "anonymize_match", "anonymize_ip_addr"]),
     "SrcSecrets": dict(imports=["Netconan.Model.PySecrets"], serves=["C07", "C08", "C09"],
                        funcs=["check_sensitive_item_format", "extract_enclosing_text", "anonymize_value"]),
     "SrcAs": dict(imports=["Netconan.Model.Py", "Netconan.Model.Words"], serves=["C11"],
